@@ -58,6 +58,16 @@ def grid(tier):
             yield {"n": n, "r": 3, "opts": {}, "engine": ["numpy", "normal"][k % 2], "values": "plain", "seed": 8 * k, "wrap_item": spell}
     for k, nullv in enumerate(("", "", " ", "N/A")):      # a NULL line without a value (or with text): NaN samples must still come back as NaN
         yield {"n": 3, "r": 4, "opts": [{}, {"wrap": True}, {"version": 1.2}, {}][k], "engine": ["numpy", "normal"][k % 2], "values": "plain", "seed": 9100 + k, "null": nullv, "nan": 0.5}
+    # formats with few significant digits round from far away onto a NULL with a short mantissa (-1000, 1e30); a float32 NULL; no NULL item
+    for nullv in (-1000, -100, 1e30, -1e30, -10000):
+        for fmt in ("%.3g", "%.2e", "%.2g", "%.1e", "%.0e", "%g"):
+            k += 1
+            yield {"n": 3, "r": 12, "opts": {"fmt": fmt}, "engine": ["numpy", "normal"][k % 2], "values": "nearnull", "seed": 9200 + k, "null": nullv}
+    for k2, fmt in enumerate(("%.3e", "%.10g", "%.0e", "%g", "%.5e", "%.15e")):
+        yield {"n": 2, "r": 8, "opts": {"fmt": fmt}, "engine": ["numpy", "normal"][k2 % 2], "values": "dblmax", "seed": 9300 + k2}
+    for k2 in range(4):
+        yield {"n": 3, "r": 6, "opts": {"fmt": "%.1f"}, "engine": ["numpy", "normal"][k2 % 2], "values": "plain", "seed": 9400 + k2, "null": -999.1, "null_float32": True}
+        yield {"n": 3, "r": 6, "opts": [{}, {"wrap": True}, {"version": 1.2}, {"fmt": "%.2f"}][k2], "engine": ["numpy", "normal"][k2 % 2], "values": "plain", "seed": 9500 + k2, "null": None, "null_absent": True, "nan": 0.4}
     for nullv in (-999.25, -9999.25, 0):      # witness of the known finding: a reading equal to the NULL value
         k += 1
         yield {"n": 3, "r": 3, "opts": {}, "engine": ["numpy", "normal"][k % 2], "values": "plain", "seed": 8 * k, "null": nullv, "null_equal_sample": True}
@@ -135,7 +145,9 @@ def make_values(case):
             return float(rng.randint(-5000, 5000))
         if kind == "nearnull":
             nv = fnull(null)
-            return nv + rng.choice([-1, 1]) * rng.choice([1e-3, 4e-3, 0.05, 0.011, 1.0, abs(nv) * 3e-6 + 2e-3])
+            return nv + rng.choice([-1, 1]) * rng.choice([1e-3, 4e-3, 0.05, 0.011, 1.0, abs(nv) * 3e-6 + 2e-3, abs(nv) * 4e-3, abs(nv) * 0.04, abs(nv) * 0.3])
+        if kind == "dblmax":
+            return rng.choice([1.7976931348623157e308, -1.7976931348623157e308, 1.6e308, 1.79e308, -1.75e308, 9.99e307, 1.4e308])
         if kind == "halfway":
             return rng.choice([0.000005, 1.000005, 2.5, 0.125, 1234.565, -0.005, 0.0049999, 99.9999949, 1e-7]) * rng.choice([1, -1, 10])
         c = rng.random()
@@ -219,6 +231,15 @@ def run_case(case, ctx):
         kw["column_fmt"] = {int(k): v for k, v in kw["column_fmt"].items()}
     las = lasio.LASFile()
     las.well["NULL"].value = null
+    if case.get("null_float32"):
+        # a NULL taken from a float32 array: the header states str(value) = -999.1, float(value) is -999.0999755859375
+        las.well["NULL"].value = np.float32(null)
+        data[1][0] = float(str(np.float32(null))) - 0.04     # a real reading that rounds (%.1f) onto the text the header states for NULL
+        data[2][1] = float(str(np.float32(null))) + 0.04
+        ctx.count("cases_with_float32_null")
+    if case.get("null_absent"):
+        del las.well["NULL"]       # a LASFile without a NULL item (a file read without that line): NaN still has to be spelled somehow
+        ctx.count("cases_without_null_item")
     names = ["DEPT"] + ["C%d" % j for j in range(1, n)]
     if case.get("seed", 0) % 5 == 4 and n >= 3:
         # curves named by bare numbers that are positions of *other* curves (array channels, DataFrame integer labels)
